@@ -141,14 +141,19 @@ def check_config(ctx, F, tag):
         # the item must come from Iterator::next on exactly into_iter(source.one_iter()) -- no adapters in between
         for x in subterms(term):
             if x[0] == "call" and x[4] == "std::iter::Iterator::next":
-                return m(Call(lambda n_: n_.endswith("::into_iter"), Call("ops::Select::one_iter", Param(0))), x[2][0])
+                # (through the `for` loop's into_iter, or on the iterator itself in a `while let`)
+                return m(Call(lambda n_: n_.endswith("::into_iter"), Call("ops::Select::one_iter", Param(0))), x[2][0]) or \
+                    m(Call("ops::Select::one_iter", Param(0)), x[2][0])
         return False
 
     # BitVector
     b = F.body("bit_vector::BitVector::copy_bit_vec")
     wl = [(bi, t) for bi, t in b.calls() if callee_name(t) == "raw_vector::RawVector::with_len"]
     sb = [(bi, t) for bi, t in b.calls() if callee_name(t).endswith("AccessRaw>::set_bit")]
-    fr = [(bi, t) for bi, t in b.calls() if callee_name(t) == "<bit_vector::BitVector as std::convert::From<raw_vector::RawVector>>::from"]
+    fr = [(bi, t) for bi, t in b.calls() if callee_name(t) == "<bit_vector::BitVector as std::convert::From<raw_vector::RawVector>>::from" or
+          # (`data.into()`: the blanket Into of the same From impl)
+          (callee_name(t).endswith("::into") and "Into<bit_vector::BitVector>" in ((t.get("callee") or {}).get("res") or {}).get("inst", callee_name(t)) and
+           "raw_vector::RawVector" in ((t.get("callee") or {}).get("res") or {}).get("inst", callee_name(t)))]
     ok = len(wl) == 1 and len(sb) == 1 and len(fr) == 1
     detail = "with_len/set_bit/from call counts %d/%d/%d" % (len(wl), len(sb), len(fr))
     if ok:
